@@ -32,11 +32,20 @@ FIXED = [
  ("C02", "C02-splitter-blank-line", "multi-tree Newick splitter indexed position -1", "ReadUntilSemiColon panicked (index -1) on a line made of blanks only, e.g. the single byte \" \"; through ReadMultiTrees the whole process died"),
  ("C02", "C02-nexus-comment-eof-hang", "Nexus parser looped forever", "the Nexus parser never returned on \"#NEXUS[\" (unterminated comment: consumeComment did not leave on EOF)"),
  ("C02", "C02-nexus-format-char-index", "Nexus parser indexed an empty value", "the Nexus parser panicked (index 0 of empty) on \"#NEXUS BEGIN DATA;FORMAT GAP\" / \"FORMAT MISSING=\""),
+ ("C08", "C08-sametree-one-directional", "Compare reported a strict contraction", "tree.Compare reported a strict contraction of the reference as identical: ref ((a,b),c,d), compared (a,b,c,d) gave Tree1=1, Tree2=0, Sametree=true"),
+ ("C09", "C09-threshold-rounding", "Consensus kept bipartitions whose frequency equals", "Consensus kept a split present in 29 of 50 trees at cutoff 0.58 (int(0.58*50) = 28), although 29/50 is not greater than 0.58"),
+ ("C09", "C09-rooted-double-count", "Consensus counted the root bipartition", "Consensus counted the root split of a rooted input twice: the single tree ((t1,t2),(t0,t3)) at cutoff 0.5 gave the star tree; [(t0,t3,(t1,t2)), ((t1,t2),(t0,t3))] at cutoff 1 lost the split present in every tree"),
+ ("C15", "C15-clone-drops-branch-comments", "Clone dropped branch comments", "Clone dropped branch comments: (a:1[ec],b:1,c:1); cloned to (a:1,b:1,c:1);"),
+ ("C15", "C15-rmsingle-loses-length", "RemoveSingleNodes lost the length", "RemoveSingleNodes lost a present length above a single-child node whose lower branch has none: ((a):1,b:1,c:1); became (b:1,c:1,a); and d(a,b) dropped from 2 to 1"),
+ ("C02", "C02-reinit-single-child-root", "ReinitIndexes dereferenced a nil branch", "every reader accepts a root with one child, e.g. \"(a);\"; ReinitIndexes on the delivered tree panicked (nil branch in computeEdgeHashesRightRecur)"),
+ ("C04", "C04-quartet-hash", "Quartet.HashCode sorted its second pair", "Quartet{0,1,2,3} and Quartet{2,3,0,1} are HashEquals but hashed to 924577 and 953377, so a quartet put in a hash map was not found through an equal presentation"),
+ ("C04", "C04-capacity-zero", "created with capacity 0 panicked", "NewHashMap(0,lf) / NewEdgeIndex(0,lf) panicked (index out of range) on the first Value or Put"),
  ("C13", "C13-phyloxml-firsttree-nil", "PhyloXML FirstTree assigned a shadowed", "PhyloXML FirstTree returned (nil, nil): reading 'the first tree' of a PhyloXML file failed with 'No tree in the input PhyloXML file' although the iterator delivers it"),
 ]
 OPEN = [
  ("C10", "C10-root-branch-beside-tip", "rooted reference whose root has a tip child: the other root branch is an inner branch with a one-taxon side; FBP gives it (bootstrap trees rooted the same way)/n instead of 1 and TBE leaves it without support (-1); witness ref ((a,(b,(c,d)))), boots [(a,b,(c,d))]"),
  ("C17", "C17-nni-root-branch", "NNIRearranger skips the inner branch through a degree-2 root: rooted ((a,b),(c,d)) gets 0 NNI proposals instead of 2 (2*(k-1) proposals for k inner branches whenever both root children are inner nodes)"),
+ ("C13", "C13-nexus-taxa-union", "a tree list whose trees are on different taxon sets does not survive Newick -> Nexus -> Newick: WriteNexus declares the union of all taxa in TAXLABELS and the Nexus reader then rejects every tree on a subset (\"(a,b,c);\\n(a,b);\\n\" -> 'Some tax names defined in TAXLABELS are not present in the tree 1')"),
  ("C13", "C13-newick-two-trees-one-line", "two Newick trees on one physical line: \"(a,b);(c,d);\\n(e,f);\\n\" through ReadMultiTrees delivers (a,b) and (e,f) with ids 0,1; (c,d) is dropped without an error"),
 ]
 import importlib.util
